@@ -163,10 +163,11 @@ def sentinel_and_align(ctx: Ctx) -> None:
                   instance=f"basic init: {tbl}")
     # pydantic
     p = ctx.func(f"{PYD}.__init__")
-    cm = [c for c in ast.walk(p.node) if isinstance(c, ast.Call) and dotted(c.func) == "create_model" and any(isinstance(x, ast.DictComp) for x in ast.walk(c))]
+    cm = [c for c in ast.walk(p.node) if isinstance(c, ast.Call) and dotted(c.func) == "create_model" and any(k.arg is None for k in c.keywords)]
     ctx.require(len(cm) == 1, f"{p.qualname}: create_model(...) of the input model not found")
-    dc = [x for x in ast.walk(cm[0]) if isinstance(x, ast.DictComp)][0]
-    val = dc.value
+    fields = _model_fields(p, cm[0])
+    ctx.require(fields is not None, f"{p.qualname}: field table of the input model (dict comprehension or loop-filled dict) not found")
+    f_target, f_iter, (f_key, val), f_guards, f_node = fields
     ok = isinstance(val, ast.Tuple) and len(val.elts) == 2 and isinstance(val.elts[1], ast.IfExp)
     if ok:
         ie = val.elts[1]
@@ -180,9 +181,9 @@ def sentinel_and_align(ctx: Ctx) -> None:
             ok = False
     ctx.check(ok, "R-C08-SENTINEL", p, "pydantic field default: p.default, or required Field() when the parameter has none", "sentinel mapped to 'required'",
               f"the pydantic input model takes {unparse(val)[:100]} as (type, default): a parameter without default is not a required field (or a declared default is lost)",
-              node=dc, instance="pydantic: field default")
-    ok = dotted(dc.key) == "p.name" and "parameters" in unparse(dc.generators[0].iter)
-    ctx.check(ok, "R-C08-ALIGN", p, "pydantic model fields named after the parameters", "p.name", f"model fields are keyed by {unparse(dc.key)}", instance="pydantic: field names")
+              node=f_node, instance="pydantic: field default")
+    ok = dotted(f_key) == "p.name" and "parameters" in C.utext(p, f_iter, calls="all")
+    ctx.check(ok, "R-C08-ALIGN", p, "pydantic model fields named after the parameters", "p.name", f"model fields are keyed by {unparse(f_key)}", instance="pydantic: field names")
     vd = [k for c in ast.walk(cm[0]) for k in (c.keywords if isinstance(c, ast.Call) else []) if k.arg == "validate_default" and C.is_const(k.value, True)]
     cfgs = [k for k in cm[0].keywords if k.arg == "__config__"]
     for k in cfgs:
@@ -193,18 +194,48 @@ def sentinel_and_align(ctx: Ctx) -> None:
               "(e.g. `x: int = None`) fails the execution instead of receiving its default, and the converters disagree", instance="pydantic: defaults untouched")
     for q in (f"{PYD}.convert_inputs", f"{PYD1}.convert_inputs"):
         ci = ctx.func(q)
-        comps = [x for x in ast.walk(ci.node) if isinstance(x, ast.ListComp)]
-        ok = len(comps) == 1 and dotted(comps[0].generators[0].iter) == "self.args" and not comps[0].generators[0].ifs and unparse(comps[0].elt) == f"loaded.pop({comps[0].generators[0].target.id})"
+        ext = _positional_extraction(ctx, ci)
+        ok = ext is not None and dotted(ext[1]) == "self.args" and not ext[3] and isinstance(ext[0], ast.Name) and unparse(ext[2]) == f"loaded.pop({ext[0].id})"
         ctx.check(ok, "R-C08-ALIGN", ci, f"{ci.short()}: positional-only values popped in declaration order", "[loaded.pop(arg) for arg in self.args]",
-                  f"{ci.short()} extracts positional-only arguments with {unparse(comps[0])[:80] if comps else 'nothing'}", instance=f"{ci.short()}: positional extraction")
-        rets = [r for r in ast.walk(ci.node) if isinstance(r, ast.Return)]
-        ok = all(isinstance(r.value, ast.Tuple) and len(r.value.elts) == 2 and dotted(r.value.elts[1]) == "loaded" for r in rets) and bool(rets)
-        ctx.check(ok, "R-C08-ALIGN", ci, f"{ci.short()}: remaining validated fields are the keyword arguments", "(args, loaded)", f"{ci.short()} returns {[unparse(r.value) for r in rets]}",
+                  f"{ci.short()} extracts positional-only arguments with {unparse(ext[2])[:80] if ext else 'nothing'}", instance=f"{ci.short()}: positional extraction")
+        rets = C.deep_returns(ctx, ci)
+        ok = all(isinstance(v, ast.Tuple) and len(v.elts) == 2 and dotted(v.elts[1]) == "loaded" for _, v in rets) and bool(rets)
+        ctx.check(ok, "R-C08-ALIGN", ci, f"{ci.short()}: remaining validated fields are the keyword arguments", "(args, loaded)", f"{ci.short()} returns {[unparse(v) if v is not None else None for _, v in rets]}",
                   instance=f"{ci.short()}: kwargs")
         ld = C.local_defs(ci, "loaded")
         ok = len(ld) == 1 and isinstance(ld[0], ast.Call) and dotted(ld[0].func) == "dict" and isinstance(ld[0].args[0], ast.Call) and "input_pydantic_model" in unparse(ld[0].args[0].func)
         ctx.check(ok, "R-C08-ALIGN", ci, f"{ci.short()}: arguments are the validated model's fields", "dict(model.validate(payload))", f"{ci.short()} builds arguments from {unparse(ld[0])[:80] if ld else '?'}",
                   instance=f"{ci.short()}: model fields")
+
+
+def _model_fields(p: FuncInfo, cm: ast.Call):
+    """(target, iter, (key, value), guards, node) of the `**fields` table given to create_model: a dict comprehension or a dict filled in a loop."""
+    for k in cm.keywords:
+        if k.arg is not None:
+            continue
+        v = k.value
+        if isinstance(v, ast.DictComp) and len(v.generators) == 1:
+            g_ = v.generators[0]
+            return g_.target, g_.iter, (v.key, v.value), list(g_.ifs), v
+        if isinstance(v, ast.Name):
+            cb = C.collection_build(p, v.id)
+            if cb is not None and isinstance(cb[3], tuple):
+                return cb[1], cb[2], cb[3], cb[4], k.value
+    return None
+
+
+def _positional_extraction(ctx: Ctx, ci: FuncInfo):
+    """(target, iter, element, guards) of the list of positional-only values built in convert_inputs or a private helper of it."""
+    for fn in [ci] + C.helper_callees(ctx, ci):
+        for x in C.own_nodes(fn):
+            if isinstance(x, ast.ListComp) and len(x.generators) == 1 and "pop" in unparse(x.elt):
+                g_ = x.generators[0]
+                return g_.target, g_.iter, x.elt, list(g_.ifs)
+        for nm in {n.id for n in ast.walk(fn.node) if isinstance(n, ast.Name)}:
+            cb = C.collection_build(fn, nm)
+            if cb is not None and cb[0] == "loop" and not isinstance(cb[3], tuple) and "pop" in unparse(cb[3]):
+                return cb[1], cb[2], cb[3], cb[4]
+    return None
 
 
 PARSERS = ("loads", "model_validate_json", "parse_raw")
